@@ -687,20 +687,34 @@ class StmtMixin:
             out.extend(self.ex(s.orelse, pf) if s.orelse else [(pf, NEXT)])
         return out
 
-    def _body_may_dirty(self, p, s):
-        """Dry run of a loop body on a scratch path: can it mark the path IR-dirty?"""
-        if p.ghost.get("$ir_dirty"):
+    def _body_may_dirty(self, p, s, elem=None):
+        """Dry run of a loop body on a scratch path: can it mark the path IR-dirty?  (`elem`: the typed element of a modelled
+        sequence; without it the loop variable is an unmodelled value.)"""
+        if p.ghost.get("$ir_dirty") and not any("g_edits" in f.locals for f in p.frames):
             return False
         n_ob, n_term = len(self.obligations), len(self.terminals)
         scratch = p.copy()
-        for t in ast.walk(s.target) if hasattr(s, "target") else []:
-            if isinstance(t, ast.Name):
-                scratch.frame.locals[t.id] = VOpaque("element of unmodelled iterable")
+        scratch.ghost.pop("$ir_dirty", None)
+        starts = [(scratch, NEXT)]
+        if elem is not None and hasattr(s, "target"):
+            try:
+                self.assume_typed(scratch, elem)
+                starts = self.assign(s.target, elem, scratch)
+            except (Unsupported, TypeError, AttributeError):
+                starts = [(scratch, NEXT)]
+                elem = None
+        if elem is None:
+            for t in ast.walk(s.target) if hasattr(s, "target") else []:
+                if isinstance(t, ast.Name):
+                    scratch.frame.locals[t.id] = VOpaque("element of unmodelled iterable")
         dirty = False
         try:
-            for q, oc in self.ex(s.body, scratch):
-                if q.ghost.get("$ir_dirty"):
-                    dirty = True
+            for q0, oc0 in starts:
+                if oc0 is not NEXT:
+                    continue
+                for q, oc in self.ex(s.body, q0):
+                    if q.ghost.get("$ir_dirty"):
+                        dirty = True
         except (Unsupported, TypeError, AttributeError, KeyError, IndexError, z3.Z3Exception):
             dirty = True        # the dry run (unmodelled loop element) does not fit the body: assume it may touch IR state
         del self.obligations[n_ob:]
@@ -841,14 +855,14 @@ class StmtMixin:
         # frame may not contain an IR-mutating call at all (checked at the end of every body path)
         dirty_at_head = bool(p.ghost.get("$ir_dirty"))
         default_frame = bool(getattr(spec, "fresh_boxes", False))
-        if self.lenient and not default_frame and self._body_may_dirty(p, s):
-            if not dirty_at_head:
-                p.ghost["$ir_dirty"] = f"an earlier iteration of the loop at {L}"
-            self.havoc_edit_counter(p)
         if kind == "for":
             kv = VInt(z3.Int(fresh_name(f"k{ordinal}")))
             p.frame.locals[kname] = kv
             p.assume(z3.And(kv.z >= 0, kv.z <= seq.len))
+        if self.lenient and not default_frame and self._body_may_dirty(p, s, elem=(seq.at(kv.z) if kind == "for" else None)):
+            if not dirty_at_head:
+                p.ghost["$ir_dirty"] = f"an earlier iteration of the loop at {L}"
+            self.havoc_edit_counter(p)
         for inv in spec.invariant:
             p.assume(self.spec_bool(inv, p, self.loop_env(p, ordinal, kind, entry_heap)))
         out = []
